@@ -130,6 +130,11 @@ def _fuse_comprehension(node: ast.AST) -> ast.AST | None:
     return ast.fix_missing_locations(ast.copy_location(new, node))
 
 
+def _words(text: str) -> list[str]:
+    import re as _re
+    return _re.findall(r"[A-Za-z_][A-Za-z_0-9]*", text)
+
+
 def _fold_bool(t: ast.AST) -> ast.AST:
     if isinstance(t, ast.Compare) and len(t.ops) == 1 and isinstance(t.left, ast.Constant) and isinstance(t.comparators[0], ast.Constant):
         a, b = t.left.value, t.comparators[0].value
@@ -346,6 +351,37 @@ class Normaliser:
                 if isinstance(st, ast.Assign) and len(st.targets) == 1 and isinstance(st.targets[0], ast.Name):
                     seen.setdefault(st.targets[0].id, []).append(st.value)
         self.ranges = {k: v[0] for k, v in seen.items() if len(v) == 1 and isinstance(v[0], ast.Call) and isinstance(v[0].func, ast.Name) and v[0].func.id == "range"}
+        # attribute name -> for every store outside an __init__: the classes whose instances the store can target
+        # (`self.x = ..` in a method of K -> {K}; `name.x = ..` with `name` annotated / constructed as repository classes -> those;
+        # anything else -> None = unknown)
+        self.class_bases: dict[str, set[str]] = {}
+        for t in trees:
+            for c in ast.walk(t):
+                if isinstance(c, ast.ClassDef):
+                    self.class_bases.setdefault(c.name, set()).update(ast.unparse(b).split(".")[-1] for b in c.bases)
+        self.typed_stores: dict[str, list[set[str] | None]] = {}
+        for t in trees:
+            for c in [x for x in ast.walk(t) if isinstance(x, ast.ClassDef)] + [t]:
+                for m in (c.body if isinstance(c, ast.ClassDef) else [x for x in t.body if isinstance(x, (ast.FunctionDef, ast.AsyncFunctionDef))]):
+                    if not isinstance(m, (ast.FunctionDef, ast.AsyncFunctionDef)) or m.name == "__init__":
+                        continue
+                    ann: dict[str, set[str]] = {}
+                    for a_ in m.args.posonlyargs + m.args.args + m.args.kwonlyargs:
+                        if a_.annotation is not None:
+                            ann[a_.arg] = {w for w in _words(ast.unparse(a_.annotation)) if w in self.class_bases}
+                    for x in ast.walk(m):
+                        if isinstance(x, ast.Assign) and len(x.targets) == 1 and isinstance(x.targets[0], ast.Name) and isinstance(x.value, ast.Call) \
+                                and isinstance(x.value.func, ast.Name) and x.value.func.id in self.class_bases:
+                            ann.setdefault(x.targets[0].id, set()).add(x.value.func.id)
+                    first = m.args.args[0].arg if m.args.args else None
+                    for x in ast.walk(m):
+                        if isinstance(x, ast.Attribute) and isinstance(x.ctx, (ast.Store, ast.Del)):
+                            who: set[str] | None = None
+                            if isinstance(x.value, ast.Name) and x.value.id == first and isinstance(c, ast.ClassDef) and first in ("self", "cls"):
+                                who = {c.name}
+                            elif isinstance(x.value, ast.Name) and ann.get(x.value.id):
+                                who = set(ann[x.value.id])
+                            self.typed_stores.setdefault(x.attr, []).append(who)
         # attribute name -> number of stores of that name anywhere in the package
         self.store_counts: dict[str, int] = {}
         for t in trees:
@@ -1347,6 +1383,25 @@ class Normaliser:
                 st.test, st.body, st.orelse = st.test.operand, st.orelse, st.body
         return [st]
 
+    def family(self, name: str) -> set[str]:
+        """the class, its ancestors and its descendants (by name, inside the package)"""
+        out, work = set(), [name]
+        while work:
+            k = work.pop()
+            if k in out:
+                continue
+            out.add(k)
+            work.extend(self.class_bases.get(k, ()))
+            work.extend(c for c, bs in self.class_bases.items() if k in bs)
+        return out
+
+    def never_rebound_on(self, cls: str, attr: str) -> bool:
+        """no store of `.attr` outside an __init__ can target an instance of `cls`: every such store names its receiver's class, and none
+        of those classes is related to `cls`"""
+        fam = self.family(cls)
+        stores = self.typed_stores.get(attr, [])
+        return all(who is not None and not (who & fam) for who in stores)
+
     def derived_fields(self, cls: ast.ClassDef) -> None:
         """def __init__(self, ..): self.flag = <expression over fields that never change after construction>
            def m(self): if self.flag: ...          ==>          if <that expression>: ...
@@ -1367,7 +1422,8 @@ class Normaliser:
             for y in ast.walk(x.value):
                 if isinstance(y, ast.Name) and y.id != "self":
                     ok = False
-                elif isinstance(y, ast.Attribute) and y.attr in self.mutable_attrs:
+                elif isinstance(y, ast.Attribute) and y.attr in self.mutable_attrs and not (
+                        isinstance(y.value, ast.Name) and y.value.id == "self" and self.never_rebound_on(cls.name, y.attr)):
                     ok = False
                 elif isinstance(y, (ast.Call, ast.Subscript, ast.Lambda, ast.NamedExpr, ast.Await)):
                     ok = False
